@@ -90,6 +90,10 @@ class WebSocketCodec(BaseComponent):
             return msgs
         data = self._buffer + data
         while data:
+            # if the 2-byte header has not arrived completely, retry after next read
+            if len(data) < 2:
+                self._buffer = data
+                break
             # extract final flag, opcode and masking
             final = bool(data[0] & 0x80 != 0)
             opcode = data[0] & 0xF
@@ -99,6 +103,10 @@ class WebSocketCodec(BaseComponent):
             offset = 2
             if payload_length >= 126:
                 payload_bytes = 2 if payload_length == 126 else 8
+                # same if the extended payload length is still incomplete
+                if len(data) < offset + payload_bytes:
+                    self._buffer = data
+                    break
                 payload_length = 0
                 for _ in range(payload_bytes):
                     payload_length = payload_length * 256 + data[offset]
